@@ -67,6 +67,19 @@ def register_helpers(repo) -> None:  # type: ignore[no-untyped-def]
                 and isinstance(loop.body[0].body[0], ast.Expr) and isinstance(loop.body[0].body[0].value, ast.Yield)
                 and isinstance(loop.body[0].body[0].value.value, ast.Name) and loop.body[0].body[0].value.value.id == loop.body[0].target.id):
             achain.add(fn.qualname)
+    # the chain adapter with a fixed number of parameters: one `async for x in P: yield x` per parameter, in order
+    for fn in repo.functions.values():
+        n = fn.node
+        if not isinstance(n, ast.AsyncFunctionDef) or fn.cls is not None or n.args.vararg or n.args.kwonlyargs or len(n.args.args) < 2:  # noqa: PLR2004
+            continue
+        body = [b for b in n.body if not (isinstance(b, ast.Expr) and isinstance(b.value, ast.Constant))]
+        params = [a.arg for a in n.args.args]
+        if len(body) == len(params) and all(
+                isinstance(b, ast.AsyncFor) and not b.orelse and isinstance(b.iter, ast.Name) and b.iter.id == p_ and isinstance(b.target, ast.Name)
+                and len(b.body) == 1 and isinstance(b.body[0], ast.Expr) and isinstance(b.body[0].value, ast.Yield)
+                and isinstance(b.body[0].value.value, ast.Name) and b.body[0].value.value.id == b.target.id
+                for b, p_ in zip(body, params)):
+            achain.add(fn.qualname)
     names_l, names_c = set(), set()
     for q in alist:
         names_l.add(q.split(".")[-1])
